@@ -225,7 +225,10 @@ def run(ctx):
     # (FinalKills of Server.tla), decided by traces of the random server driver with undecryptable,
     # foreign and plaintext 66..70 injected into live sessions
     from checks import server_family
-    server_family.run(ctx, "C05", None, light=True)
+    # every class of specification transition whose last exchange is a tunnel message (66/68/70): garbage,
+    # replayed, foreign and crafted bodies under every token class in every reachable session state
+    server_family.run(ctx, "C05", None, light=True,
+                      cover_filter=lambda acts: acts[-1].get("t") in (66, 68, 70) or (acts[-1]["a"] == "honest" and len(acts) > 4))
     return "model_checking"
 
 
